@@ -2,6 +2,7 @@
 import quantile_rules as Q
 import cowrite
 import generic_lints
+import triggers
 
 
 def run(facts, tier):
@@ -13,6 +14,7 @@ def run(facts, tier):
         ("compaction triggers", Q.compaction_triggers, 2, "compaction triggers include the capacity boundary"),
         ("couplings", lambda fa: cowrite.obligations(fa, ['kll_sketch', 'req_sketch', 'quantiles_sketch']), 10, "fields that every mutator updates together (counters, extremes, cached values) are still updated together"),
         ("duplicate operands", lambda fa: generic_lints.duplicate_conjuncts(fa, ('kll/', 'req/', 'quantiles/', 'common/')), 2, "no logical chain tests the same operand twice (copy-paste of the wrong peer)"),
+        ("structural triggers", lambda fa: triggers.obligations(fa, ['kll_sketch', 'quantiles_sketch', 'req_compactor', 'req_sketch']), 15, "the comparisons that decide when to resize / rebuild / compact / purge / promote keep their reviewed boundary (operator and constants)"),
     ):
         o = f(facts)
         obs += o
